@@ -1,5 +1,7 @@
 """C05 — inserted atoms land where the replacement pattern says, modulo the lattice (replace_pattern_in_structure)."""
+import contextlib
 import itertools
+import random
 from fractions import Fraction
 
 import numpy as np
@@ -26,7 +28,11 @@ RULE = ("[ordinary streams] structures: periodic cells (orthorhombic, triclinic 
         "(all search atoms kept + atoms sticking 3–9 Å out, some kept + new, all new incl. one exactly on the first "
         "search atom, one element substituted, one atom re-placed 0.02–0.09 Å away with the same element, atoms on the pattern axis), every replacement atom tagged by a unique "
         "charge; replace_all on/off; each case is run a second time with search and replacement pattern moved jointly "
-        "by a random rigid motion. [TAGGED stream, known finding collinear-search-pattern-offaxis-replacement] the "
+        "by a random rigid motion. [HISTORY stream] 40/500 cases: the structure is first searched or replaced, then a second "
+        "structure is derived from that object by the library's own operations (replicate, copy + cell scaling / row assignment, "
+        "a[idx], extend, copy) and the replacement is done on the derived object — judged by the same image / in-cell oracle and "
+        "required to equal the replacement on a fresh object built from the derived structure's dump. "
+        "[TAGGED stream, known finding collinear-search-pattern-offaxis-replacement] the "
         "identification case (C–O pair, replacement C–O + off-axis S) and 12/150 generated cases with one-atom, two-atom and "
         "collinear search patterns and off-axis replacement atoms, compared under a joint motion INCLUDING the atoms whose place "
         "the match does not determine; attributed to the finding only if the search pattern is degenerate, every differing atom "
@@ -267,6 +273,112 @@ def oracle_joint(case, out, out2, motion):
     return multiset_equal_mod_lattice(view(out["ok"]), view(out2["ok"]), cell, tol)
 
 
+# ------------------------------------------------------------------ histories: replace on a structure DERIVED from a used one
+
+@contextlib.contextmanager
+def object_for(sj, obj):
+    """while active, core.atoms_from_json(sj) hands out the given (already used) object instead of a fresh one"""
+    real = core.atoms_from_json
+    core.atoms_from_json = lambda j: obj if j is sj else real(j)
+    try:
+        yield
+    finally:
+        core.atoms_from_json = real
+
+
+def history_case(rng, tier):
+    """a structure is searched / replaced, then a second structure is derived from it by the library's own operations
+    (replicate, copy + cell edit, a[idx], extend) and the replacement is done THERE"""
+    case = G.make_case(rng, tier, boundary=rng.choice([None, None, True]), hints=(None, None, None), int_rp=False,
+                       distort=False, exact=False, tilt=False, flip=False, bent=False, unwrap=False, cellvar="")
+    n = len(case["s"]["atoms"])
+    kind = rng.choice(["replicate", "replicate", "replicate", "cell-scale", "cell-row", "slice", "extend", "copy"])
+    h = {"prime": rng.choice(["find", "find", "replace", "find-other-pattern"]), "derive": kind}
+    if kind == "replicate":
+        h["dims"] = rng.choice([[2, 1, 1], [1, 2, 1], [1, 1, 2], [2, 1, 2], [2, 2, 1], [1, 2, 2]])
+    elif kind == "cell-scale":
+        h["factor"] = rng.choice([1.25, 1.5, 2.0])
+    elif kind == "cell-row":
+        h["row"], h["factor"] = rng.randrange(3), rng.choice([1.5, 2.0])
+    elif kind == "slice":
+        idx = list(range(n))
+        if rng.random() < 0.5:
+            rng.shuffle(idx)
+        h["idx"] = idx
+    elif kind == "extend":
+        h["pos"] = [G.dyad(rng, 0, 6) for _ in range(3)]
+    case["history"] = h
+    return case
+
+
+def run_history(case):
+    """returns (case on the derived structure, result of the replacement on the DERIVED OBJECT, result on a fresh object
+    built from the derived structure's canonical dump)"""
+    import mofun.mofun as mm
+    from mofun import Atoms
+    h = case["history"]
+    s0 = core.atoms_from_json(case["s"])
+    p = core.atoms_from_json(case["p"])
+    r = core.atoms_from_json(case["r"])
+    random.seed(case["seed"])
+    np.random.seed(case["seed"] % (2 ** 32))
+    with core.quiet():
+        if h["prime"] == "find":
+            mm.find_pattern_in_structure(s0, p, atol=case["atol"])
+        elif h["prime"] == "replace":
+            mm.replace_pattern_in_structure(s0, p, r, atol=case["atol"])
+        else:
+            mm.find_pattern_in_structure(s0, Atoms(elements=["H"], positions=[(0.0, 0.0, 0.0)]), atol=case["atol"])
+        k = h["derive"]
+        if k == "replicate":
+            s1 = s0.replicate(repldims=tuple(h["dims"]))
+        elif k == "cell-scale":
+            s1 = s0.copy()
+            s1.cell = s1.cell * h["factor"]
+        elif k == "cell-row":
+            s1 = s0.copy()
+            s1.cell[h["row"]] = s1.cell[h["row"]] * h["factor"]
+        elif k == "slice":
+            s1 = s0[list(h["idx"])]
+        elif k == "extend":
+            s1 = s0.copy()
+            s1.extend(Atoms(elements=["He"], positions=[tuple(h["pos"])]))
+        else:
+            s1 = s0.copy()
+    sj1 = core.canon_atoms(s1)
+    case1 = dict(case, s=sj1)
+    with object_for(sj1, s1):
+        out_hist = run_real(case1)
+    out_fresh = run_real(case1)
+    return case1, out_hist, out_fresh
+
+
+def check_history(ctx, case):
+    try:
+        case1, out_hist, out_fresh = run_history(case)
+    except Exception as e:  # noqa: a derivation that raises is a failure of the sequence
+        ctx.case(case, nontrivial=False)
+        ctx.fail("history %s raised %s: %s" % (case["history"], type(e).__name__, str(e)[:120]), case, observed=None,
+                 required="derived structure can be searched and replaced", tags=["c05", "history"])
+        return
+    bad, stats = oracle_c05(case1, out_hist)
+    ctx.case(case, nontrivial=(bad is None and stats["matches"] > 0 and stats["inserted"] > 0))
+    ctx.count("history")
+    ctx.count("history:%s-then-%s" % (case["history"]["prime"], case["history"]["derive"]))
+    if bad is None:
+        a = {"ok": out_hist["ok"]} if "ok" in out_hist else {"err": out_hist.get("err")}
+        b = {"ok": out_fresh["ok"]} if "ok" in out_fresh else {"err": out_fresh.get("err")}
+        d = core.same(a, b, tol=1e-9)
+        if d is None and [m["idx"] for m in (out_hist.get("used") or [])] != [m["idx"] for m in (out_fresh.get("used") or [])]:
+            d = "other occurrences replaced"
+        if d:
+            bad = "the replacement on the derived object differs from the replacement on a fresh copy of the same structure: " + d
+    if bad:
+        ctx.fail("after %s on the parent and %s: %s" % (case["history"]["prime"], case["history"]["derive"], bad), case,
+                 observed={"n": out_hist.get("n"), "n_fresh": out_fresh.get("n")},
+                 required="C05 image / in-cell oracle on the derived structure, equal to a fresh evaluation", tags=["c05", "history"])
+
+
 # ------------------------------------------------------------------ KNOWN FINDING: collinear search pattern, off-axis replacement
 
 FINDING_OFFAXIS = "collinear-search-pattern-offaxis-replacement"
@@ -433,9 +545,6 @@ def atoms_with_int_positions(j):
                      atom_type_masses=[float(Fraction(m)) for m in ty["mass"]], **kw)
 
 
-import contextlib
-
-
 @contextlib.contextmanager
 def int_constructed(jsons):
     """while active, the listed canonical-JSON objects (those with whole-number coordinates and no terms) are built from
@@ -563,6 +672,9 @@ def run(ctx, oracle_only=False):
             ops.append(op)
             outs.append(out)
             inps.append(case)
+    # histories: the replacement is done on a structure derived (by the library) from one that was already searched / replaced
+    for _ in range(ctx.n(40, 500)):
+        check_history(ctx, history_case(ctx.rng, ctx.tier))
     # tagged stream (known finding): the joint-motion clause taken literally for degenerate search patterns
     check_offaxis(ctx, canonical_offaxis_case())
     for _ in range(ctx.n(12, 150)):
@@ -587,6 +699,10 @@ def search(ctx):
             if ctx.failures:
                 return
         # tilted cells, boundary placements, long replacement arms: where a wrong wrap shows
+        for _ in range(400):
+            check_history(ctx, history_case(rng, "thorough"))
+            if ctx.failures:
+                return
         for _ in range(1500):
             case = G.make_case(rng, "thorough", cell_kind=rng.choice(["tri+", "tri-", "rot"]), boundary="corner",
                                rp_kind=rng.choice(["keep_all+far", "all_new"]))
@@ -599,6 +715,14 @@ def search(ctx):
 
 def replay(ctx, rec):
     case = rec["input"]
+    if case.get("history"):
+        case1, out_hist, out_fresh = run_history(case)
+        bad, _ = oracle_c05(case1, out_hist)
+        if bad:
+            return False
+        a = {"ok": out_hist["ok"]} if "ok" in out_hist else {"err": out_hist.get("err")}
+        b = {"ok": out_fresh["ok"]} if "ok" in out_fresh else {"err": out_fresh.get("err")}
+        return core.same(a, b, tol=1e-9) is None
     motion = case.get("motion")
     out = run_real(case)
     bad, _ = oracle_c05(case, out)
